@@ -12,6 +12,11 @@ CLOSERS = ["]", ")", "}", "++}", "--}", "~~}", "<<}", "==}", "~>", ">", "-->", "
            "\"", "'", "}}", "]:", "]("]
 
 
+# entity spellings: predefined, named, numeric, and case variants the lexer may or may not treat as entities
+ENTITY_FORMS = ["&amp;", "&AMP;", "&Amp;", "&lt;", "&LT;", "&gt;", "&GT;", "&quot;", "&QUOT;", "&apos;", "&copy;", "&COPY;", "&nbsp;", "&#65;", "&#x41;", "&#X41;",
+                "&amp", "&;", "&#;", "&#x;", "&unknown;", "&amp;amp;"]
+
+
 def word(rng):
     return rng.choice(WORDS)
 
@@ -20,7 +25,8 @@ def text(rng, n=None, reserved=0.15):
     n = n or rng.randint(1, 6)
     out = []
     for _ in range(n):
-        out.append(rng.choice(RESERVED) if rng.random() < reserved else word(rng))
+        k = rng.random()
+        out.append(rng.choice(RESERVED) if k < reserved else rng.choice(ENTITY_FORMS) if k < reserved * 1.3 else word(rng))
     return " ".join(out)
 
 
@@ -44,7 +50,7 @@ def inline(rng, depth=0):
     if c == "sub": return "H~2~O"
     if c == "critic": return rng.choice(["{++%s++}", "{--%s--}", "{~~%s~>new~~}", "{>>%s<<}", "{==%s==}"]) % t
     if c == "auto": return rng.choice(["<http://example.com/a?b=1&c=2>", "<user@example.com>"])
-    if c == "raw": return rng.choice(["<b>%s</b>" % t, "`\\textbf{x}`{=latex}", "&amp; &#169; &copy;"])
+    if c == "raw": return rng.choice(["<b>%s</b>" % t, "`\\textbf{x}`{=latex}", "&amp; &#169; &copy;", rng.choice(ENTITY_FORMS) + " " + rng.choice(ENTITY_FORMS)])
     if c == "abbr": return "ABBR"
     if c == "var": return "[%title]"
     if c == "esc": return "\\" + rng.choice(RESERVED)
